@@ -28,6 +28,9 @@ pub enum HelpGen {
     None,
     /// short unique marker words
     Markers,
+    /// multi paragraph texts with hard breaks, code blocks, long and multi-byte words, control
+    /// characters; first paragraph carries a `Hlp` marker, later ones `Deep` markers
+    Grammar,
 }
 
 impl Default for BroadCfg {
@@ -62,9 +65,75 @@ fn marker(names: &mut Names, what: &str) -> String {
     format!("{}{}", what, names.val())
 }
 
+pub const WORDS: &[&str] = &[
+    "a", "of", "the", "value", "output", "file", "ünï", "口水鸡", "naïve", "e\u{301}tude", "tab\there",
+    "bell\u{7}x", "semi;colon", "(paren)", "dash-ed", "x=y", "--flag", "<META>", "[opt]", "don't",
+    "100%", "a/b/c", "…", "ok.",
+];
+
+fn long_word(u: &mut Un) -> String {
+    let n = 30 + u.below(60);
+    let unit = *u.pick(&["abcdefghij", "ünïcödé", "口水鸡", "x"]);
+    let mut s = String::new();
+    while s.chars().count() < n {
+        s.push_str(unit);
+    }
+    s
+}
+
+fn gen_paragraph(u: &mut Un, marker: &str) -> String {
+    let n = 1 + u.below(14);
+    let at = u.below(n);
+    let mut s = String::new();
+    for i in 0..n {
+        if i > 0 {
+            // separator: space, soft newline, hard break
+            match u.weighted(&[10, 2, 1]) {
+                0 => s.push(' '),
+                1 => s.push('\n'),
+                _ => s.push_str("\n "),
+            }
+        }
+        if i == at {
+            s.push_str(marker);
+        } else if u.chance(20) {
+            s.push_str(&long_word(u));
+        } else {
+            s.push_str(*u.pick(WORDS));
+        }
+    }
+    if u.chance(40) {
+        // code block lines
+        let k = 1 + u.below(3);
+        for j in 0..k {
+            s.push_str(&format!("\n    code line {} of {} {}", j, marker, u.pick(WORDS)));
+        }
+    }
+    s
+}
+
+/// multi paragraph help text; paragraph 0 contains `Hlp<n>`, paragraph k>0 contains `Deep<n>x<k>`
+pub fn gen_grammar_text(u: &mut Un, names: &mut Names) -> String {
+    let id = names.val();
+    let paragraphs = 1 + u.weighted(&[5, 3, 2]);
+    let mut s = gen_paragraph(u, &format!("Hlp{}", id));
+    for k in 1..paragraphs {
+        s.push_str("\n\n");
+        s.push_str(&gen_paragraph(u, &format!("Deep{}x{}", id, k)));
+    }
+    s
+}
+
 fn help_for(u: &mut Un, names: &mut Names, cfg: &BroadCfg) -> Option<DocSpec> {
     match cfg.help {
         HelpGen::None => None,
+        HelpGen::Grammar => {
+            if u.chance(220) {
+                Some(DocSpec::plain(gen_grammar_text(u, names)))
+            } else {
+                None
+            }
+        }
         HelpGen::Markers => {
             if u.chance(200) {
                 let first = marker(names, "Hlp");
@@ -290,7 +359,17 @@ pub fn gen_broad_field(u: &mut Un, names: &mut Names, cfg: &BroadCfg) -> Node {
 
 fn gen_info(u: &mut Un, names: &mut Names, cfg: &BroadCfg, depth: usize) -> InfoSpec {
     let mut info = InfoSpec::default();
-    if cfg.help != HelpGen::None {
+    if cfg.help == HelpGen::Grammar {
+        if u.chance(150) {
+            info.descr = Some(DocSpec::plain(gen_grammar_text(u, names).replace("Hlp", "Descr")));
+        }
+        if u.chance(100) {
+            info.header = Some(DocSpec::plain(gen_grammar_text(u, names).replace("Hlp", "Header")));
+        }
+        if u.chance(100) {
+            info.footer = Some(DocSpec::plain(gen_grammar_text(u, names).replace("Hlp", "Footer")));
+        }
+    } else if cfg.help != HelpGen::None {
         if u.chance(150) {
             info.descr = Some(DocSpec::plain(marker(names, "Descr")));
         }
